@@ -134,6 +134,13 @@ func replyOracle(c *Ctx, s *lifeSess, sigp, line string, lo, hi, f0 int, atMostO
 
 func (s *lifeSess) emitLog(c *Ctx) {
 	c.emit(s.logLine(), s.modelObs(), true)
+	c.emit(s.fidLine(false), s.fidObs(), true)
+}
+
+// emitLogEnded: as emitLog, for a session whose connection is gone and whose goroutines have all ended.
+func (s *lifeSess) emitLogEnded(c *Ctx) {
+	c.emit(s.logLine(), s.modelObs(), true)
+	c.emit(s.fidLine(true), s.fidObs(), true)
 }
 
 // waitEntered waits until each of the given requests has reached the implementation or —
